@@ -304,6 +304,16 @@ func (p *Path) clockTerm() *Term {
 	return p.clock
 }
 
+// now: the current instant of the model clock. By default the clock stands still between
+// explicit vx_clock_advance calls and timer expiries; in free mode every reading is a fresh,
+// arbitrary later instant.
+func (p *Path) now() *Term {
+	if p.clockFree {
+		return p.advanceClock()
+	}
+	return p.clockTerm()
+}
+
 // advanceClock returns a fresh instant >= the current one.
 func (p *Path) advanceClock() *Term {
 	tt := p.tt
@@ -316,8 +326,6 @@ func (p *Path) advanceClock() *Term {
 }
 
 func (p *Path) timeStructAt(ns *Term) Value {
-	// time.Time{wall uint64, ext int64, loc *Location}: monotonic-less wall encoding: ext = seconds since year 1
-	// We do not model wall time: timers deliver an opaque Time value; only monotime is interpreted.
 	return Struct{p.tt.U64(0), ns, Ptr{}}
 }
 
